@@ -447,6 +447,14 @@ func runCode128() {
 			}
 		}
 	}
+	// every value of the packed groups: code set C carries a digit PAIR per symbol character; every
+	// four-digit string (two pairs, each with every value 00..99), and every pair behind a letter
+	for v := 0; v < 10000; v++ {
+		list = append(list, fmt.Sprintf("%04d", v))
+	}
+	for v := 0; v < 100; v++ {
+		list = append(list, fmt.Sprintf("A%02d%02d", v, 99-v), fmt.Sprintf("%02d%02d%02d", v, v, v))
+	}
 	roll := strings.Repeat("Code 128 ~ROLL\x01\x02 12345 abc|", 4)
 	for n := 77; n <= 81; n++ {
 		list = append(list, strings.Repeat("7", n), strings.Repeat("A", n), strings.Repeat("a", n), strings.Repeat("\x05", n), roll[:n], strings.Repeat("12a", 27)[:n])
@@ -460,7 +468,7 @@ func runCode128() {
 		}
 	}
 	list = uniq(list)
-	sweep(fmt.Sprintf("Code 128: %d contents: every ASCII character, every ordered ASCII pair, digit runs of length 1..14 between 5x5 neighbours, lengths 77..81 over six fillers, contents of 40..80 characters alternating between code sets A and B (up to 160 symbol characters); each read by the Code 128 reader without hints and with ASSUME_GS1 (no content holds an FNC1, so the hint changes nothing)", len(list)), len(list), 100, func(l *mc.Local, i int) {
+	sweep(fmt.Sprintf("Code 128: %d contents: every ASCII character, every ordered ASCII pair, every four-digit string, digit runs of length 1..14 between 5x5 neighbours, lengths 77..81 over six fillers, contents of 40..80 characters alternating between code sets A and B (up to 160 symbol characters); each read by the Code 128 reader without hints and with ASSUME_GS1 (no content holds an FNC1, so the hint changes nothing)", len(list)), len(list), 100, func(l *mc.Local, i int) {
 		run(l, "code128", list[i], -1, false, "own", "own+gs1")
 	})
 	// forced code sets
